@@ -29,10 +29,12 @@ RULE = ('correspondence: full-size EPW texts (shipped files; synthetic files who
         'restored); generated header blocks (0-3 ground depths, no/2009/2021 design conditions, 0-6 weeks, '
         'leap/DST fields, comments with commas) through parse + regenerate, ~10 % malformed; stamps of '
         'from_missing_values; collection datetimes; histories over {header only, load, convert_to_ip/si, '
-        'to_file_string, failing write, to_wea, to_wea with a bad hour, to_mos, to_dict}.  oracle: the '
+        'to_file_string, failing write, to_wea, to_wea with a bad hour, to_mos, to_dict}.  Header tokens are varied '
+        'widely (daylight-saving dates over all months/days and spellings, none, one-sided, year-wrapping; tokens '
+        '"0"/"No"/"Yes" in text fields; zero depths and values; data-period variants).  oracle: the '
         'statement evaluated on the real classes (read/write/read equality, write fixed point, row-for-row '
         'reproduction of canonical files, position and date-time of every cell from the file\'s own stamps, '
-        'exports, snapshots before/after every export).  A case is non-trivial when the implementation '
+        'exports, snapshots before/after every export; header-only read/regenerate/read on generated header blocks).  A case is non-trivial when the implementation '
         'returns a value (not a rejection); distinct = distinct (op, input)')
 TRUSTED_BASE = [
     'translator tools/extract/epw_fields.py: copies EPWFields._fields (value type, unit, missing) and derives '
@@ -121,10 +123,12 @@ def gen_header(rng, o):
         gl += ',' + ','.join([g[0], g[1], g[2], g[3]] + list(g[4]))
     hl = 'HOLIDAYS/DAYLIGHT SAVINGS,%s,%s,%s,0' % (o.get('leap', 'No'), o.get('dst_start', '0'), o.get('dst_end', '0'))
     return [loc, dl, wl, gl, hl, 'COMMENTS 1,' + o.get('c1', 'first comment'),
-            'COMMENTS 2,' + o.get('c2', ' -- second; comment'), 'DATA PERIODS,1,1,Data,Sunday, 1/ 1,12/31']
+            'COMMENTS 2,' + o.get('c2', ' -- second; comment'),
+            o.get('data_periods', 'DATA PERIODS,1,1,Data,Sunday, 1/ 1,12/31')]
 
 
-WEEK_NAMES = ['Summer - Week Nearest Max Temperature For Period', 'Summer - Week Nearest Average Temperature For Period',
+WEEK_NAMES = ['Week 10 - Max of 2010', 'Min 0', 'Typical 0', 'Extreme Hot Week Max', 'Max', '0',
+              'Summer - Week Nearest Max Temperature For Period', 'Summer - Week Nearest Average Temperature For Period',
               'Winter - Week Nearest Min Temperature For Period', 'Winter - Week Nearest Average Temperature For Period',
               'Autumn - Week Nearest Average Temperature For Period', 'Spring - Week Nearest Average Temperature For Period',
               'No Dry Season - Week Near Average Annual', 'Odd Max and Min week', 'Plain week']
@@ -144,18 +148,51 @@ def _fmt_date(m, d, style):
     return '2015/%02d/%02d' % (m, d)
 
 
+MONTH_DAYS = [31, 28, 31, 30, 31, 30, 31, 31, 30, 31, 30, 31]
+MONTH_NAMES = ['January', 'February', 'March', 'April', 'May', 'June', 'July', 'August', 'September', 'October',
+               'November', 'December']
+
+
+def rand_dst(rng):
+    """Daylight-saving start / end tokens: none ('0', '0'), dates over all months and days in the spellings
+    EPW files use (northern and year-wrapping southern periods), nth-weekday rules, rarely one-sided."""
+    r = rng.random()
+    if r < 0.3:
+        return '0', '0'
+    def one():
+        m = rng.randrange(1, 13)
+        d = rng.choice([1, 10, 20, 30, 31, rng.randrange(1, 32)])
+        d = min(d, MONTH_DAYS[m - 1])
+        style = rng.randrange(5)
+        if style == 0:
+            return '%d/%d' % (m, d)
+        if style == 1:
+            return '%2d/%2d' % (m, d)
+        if style == 2:
+            return '%02d/%02d' % (m, d)
+        if style == 3:
+            return '%s %s in %s' % (rng.choice(['1st', '2nd', 'Last', '3rd']), rng.choice(['Sunday', 'Monday']),
+                                    MONTH_NAMES[m - 1])
+        return '%d/%d' % (m, d)
+    a, b = one(), one()
+    if r < 0.36:
+        return rng.choice([(a, '0'), ('0', b), ('', ''), ('0', '')])
+    return a, b
+
+
 def rand_header_opts(rng, leap_tok=None, findings=False):
     """Random well-formed header options (findings=True also allows the regions of the recorded
     findings: ground temperatures with > 2 decimals, incomplete design conditions)."""
     o = {}
     o['city'] = rng.choice(['Test City', 'Chicago Ohare Intl Ap', 'Long.Beach.AP', 'A/B\\C', '"VAN-NUYS-AP"', 'X'])
-    o['state'] = rng.choice(['IL', '-', '', 'BW'])
-    o['source'] = rng.choice(['TMY3', 'SRC-TMYx', 'Custom-722886'])
-    o['station'] = rng.choice(['725300', '107290', ''])
-    o['lat'] = rng.choice(['41.98', '-33.81200', '35.6866666666667', '0.0', '90', '-90.0', '9'])
-    o['lon'] = rng.choice(['-87.92', '139.765', '8.55000', '180', '-180.0', '0.5'])
+    o['state'] = rng.choice(['IL', '-', '', 'BW', '0', 'No'])
+    o['source'] = rng.choice(['TMY3', 'SRC-TMYx', 'Custom-722886', '0', 'IWEC Data'])
+    o['station'] = rng.choice(['725300', '107290', '', '0', '000010'])
+    o['country'] = rng.choice(['USA', 'DEU', '0', 'Yes'])
+    o['lat'] = rng.choice(['41.98', '-33.81200', '35.6866666666667', '0.0', '90', '-90.0', '9', '0', '10.0', '-0.5'])
+    o['lon'] = rng.choice(['-87.92', '139.765', '8.55000', '180', '-180.0', '0.5', '0', '100.0', '-0.25'])
     o['tz'] = rng.choice(['-6.0', '9', '1.0', '5.5', '-12', '14.0', '0'])
-    o['elev'] = rng.choice(['201.0', '6', '-12.5', '1829.0', '0'])
+    o['elev'] = rng.choice(['201.0', '6', '-12.5', '1829.0', '0', '0.0', '1000', '-0.5'])
     o['design'] = rng.choice(['none', '2009', '2021', '2021'])
     if o['design'] == '2021':
         o['n_ext'] = rng.choice([15, 16])
@@ -172,22 +209,30 @@ def rand_header_opts(rng, leap_tok=None, findings=False):
         weeks.append([nm, kind, _fmt_date(st.month, st.day, style), _fmt_date(en.month, en.day, style)])
     o['weeks'] = weeks
     ng = rng.choice([0, 1, 2, 3, 3])
-    depths = rng.sample(['.5', '2', '4', '0.5', '1.25', '10'], ng)
-    if '.5' in depths and '0.5' in depths:
-        depths.remove('0.5')
+    depths = rng.sample(['.5', '2', '4', '0.5', '1.25', '10', '0', '0.0', '20.0', '0.05'], ng)
+    for a, b in (('.5', '0.5'), ('0', '0.0')):
+        if a in depths and b in depths:
+            depths.remove(b)
     gr = []
     for dp in depths:
         if findings and rng.random() < 0.3:
             v = ['%s%d.%02d%d' % (rng.choice(['', '-']), rng.randrange(0, 30), rng.randrange(100),
                                   rng.choice([1, 2, 3, 4, 6, 7, 8, 9])) for _ in range(12)]    # never a tie at the 3rd decimal
         else:
-            v = [rng.choice(['%.2f', '%.1f', '%.0f']) % (rng.randrange(-2000, 3000) / 100.0) for _ in range(12)]
-        gr.append([dp, rng.choice(['', '1.2']), rng.choice(['', '1600']), rng.choice(['', '0.85']), v])
+            v = [rng.choice(['0', '0.00', '0.0', '10.00', '-0.50', '20']) if rng.random() < 0.25 else
+                 rng.choice(['%.2f', '%.1f', '%.0f']) % (rng.randrange(-2000, 3000) / 100.0) for _ in range(12)]
+        gr.append([dp, rng.choice(['', '1.2', '0']), rng.choice(['', '1600', '0']), rng.choice(['', '0.85', '0.0']), v])
     o['ground'] = gr
     o['leap'] = leap_tok if leap_tok is not None else rng.choice(['No', 'Yes', ''])
-    o['dst_start'], o['dst_end'] = rng.choice([('0', '0'), ('3/8', '11/1'), ('2nd Sunday in March', '1st Sunday in November')])
-    o['c1'] = rng.choice(['first comment', 'Custom/User Format -- WMO#725300; NREL, with, commas', '', '"quoted, text"'])
-    o['c2'] = rng.choice([' -- Ground temps produced with a standard soil diffusivity', 'x', '', 'a,b,,c'])
+    o['dst_start'], o['dst_end'] = rand_dst(rng)
+    o['c1'] = rng.choice(['first comment', 'Custom/User Format -- WMO#725300; NREL, with, commas', '', '"quoted, text"',
+                          '0', 'Period of Record 1990-2010', ',', 'a,,0'])
+    o['c2'] = rng.choice([' -- Ground temps produced with a standard soil diffusivity', 'x', '', 'a,b,,c', '0',
+                          ' -- soil diffusivity of 2.3225760E-03 {m**2/day}', 'no'])
+    o['data_periods'] = rng.choice([
+        'DATA PERIODS,1,1,Data,Sunday, 1/ 1,12/31', 'DATA PERIODS,1,1,Data,Monday,1/1,12/31',
+        'DATA PERIODS,1,1,Data,Sunday, 1/ 1,2015/12/31', 'DATA PERIODS,1,1,TMY2-94846,Friday,10/ 1, 9/30',
+        'DATA PERIODS,2,1,Data,Sunday, 1/ 1, 6/30,Data2,Monday, 7/ 1,12/31', 'DATA PERIODS,1,4,Data,Tuesday,1/1,12/31'])
     return o
 
 
@@ -932,6 +977,54 @@ def check_case(op, inp):
                         'observed': '%r -> %r' % (_short(hd1[key]), _short(hd2[key])), 'sig': s}
         return None
 
+    if op == 'hdr_roundtrip':
+        # the eight header lines alone (lazy header load of a file): read, regenerate, read again
+        hr = random.Random(inp['seed'])
+        o = rand_header_opts(hr, leap_tok=hr.choice(['No', 'Yes']))
+        o.update(inp.get('override') or {})
+        lines = gen_header(hr, o)
+        sig = {'source': 'header'}
+
+        def view(e):
+            loc = e.location
+            v = _header_data(e)
+            v['location'] = (loc.city, loc.state, loc.country, loc.source, loc.station_id, loc.latitude,
+                             loc.longitude, loc.time_zone, loc.elevation)
+            return v
+        e1, p1 = _header_only_epw(lines)
+        try:
+            d1 = view(e1)
+            h1 = [l.rstrip('\n') for l in e1.header]
+        finally:
+            os.remove(p1)
+        hl = [l.strip() for l in lines]
+        lt = hl[0].split(',')
+        want_txt = {'comments': (hl[5].split(',', 1)[1] if ',' in hl[5] else '', hl[6].split(',', 1)[1] if ',' in hl[6] else ''),
+                    'dst': tuple(hl[4].split(',')[2:4]), 'leap': hl[4].split(',')[1] == 'Yes'}
+        for key, want in want_txt.items():
+            if d1[key] != want:
+                return {'required': 'header field %s = %r' % (key, want), 'observed': repr(d1[key]),
+                        'sig': dict(sig, what='header_text', part=key)}
+        if list(d1['location'][1:5]) != lt[2:6] or [float(x) for x in d1['location'][5:]] != [float(x) for x in lt[6:10]]:
+            return {'required': 'location %r' % (lt[1:10],), 'observed': repr(d1['location']),
+                    'sig': dict(sig, what='header_text', part='location')}
+        e2, p2 = _header_only_epw(h1)
+        try:
+            d2 = view(e2)
+            h2 = [l.rstrip('\n') for l in e2.header]
+        finally:
+            os.remove(p2)
+        for key in d1:
+            if d1[key] != d2[key]:
+                return {'required': 'header data %s identical after write + read: %s' % (key, _short(d1[key])),
+                        'observed': _short(d2[key]) + ' | written line: ' + _short(h1[{'dst': 4, 'leap': 4, 'comments': 5, 'location': 0, 'ground_temps': 3}.get(key, 1 if key.endswith('dict') else 2)]),
+                        'sig': dict(sig, what='header_data', part=key)}
+        if h1 != h2:
+            i = next(i for i in range(8) if h1[i] != h2[i])
+            return {'required': 'regenerated header is a fixed point: ' + _short(h1[i]), 'observed': _short(h2[i]),
+                    'sig': dict(sig, what='not_fixed_point', part='header', line=i)}
+        return None
+
     if op == 'exports':
         # Wea lines, MOS time column and data, dictionary: the numbers of the EPW at the same time step
         text = text_of(inp)
@@ -1190,6 +1283,11 @@ def _oracle_cases(ctx):
     files = list(SHIPPED) if big else ['chicago.epw', 'tokyo.epw', 'mannheim.epw']
     for f in files:
         yield 'roundtrip', {'file': f}
+    for a, b in (('3/8', '11/1'), ('3/10', '11/3'), ('3/29', '10/25'), ('10/4', '4/5'), ('0', '0'), ('10/30', '3/20'),
+                 (' 3/ 8', '11/ 1'), ('03/10', '11/03'), ('Last Sunday in March', 'Last Sunday in October')):
+        yield 'hdr_roundtrip', {'seed': 7, 'override': {'dst_start': a, 'dst_end': b}}
+    for _ in range(400 if not big else 4000):
+        yield 'hdr_roundtrip', {'seed': rng.randrange(10 ** 9)}
     yield 'exports', {'file': 'chicago.epw'}
     yield 'exports', {'file': 'chicago.epw', 'ip': True}
     specs = _synth_specs(ctx, rng)
